@@ -24,6 +24,16 @@ def make_cases(tier, rng):
                 add("threads", 0, list(h) + [TAIL], "exhaustive")
             else:
                 add("local" if n % 2 else "threads", n % 3, list(h) + [TAIL], "exhaustive")
+    # every callback reads the subject back (peek) while the delivery is in progress: all histories one shorter, and random ones.
+    # Local form only: over SubjectThreads a callback that re-enters the subject is outside the claim (C10), and the crate's
+    # actual_subscribe does hold the value mutex while it hands the current value to a new subscriber.
+    for k in range(L):
+        for h in itertools.product(OPS, repeat=k):
+            add("local", n % 3, ["peekcb"] + list(h) + [TAIL], "peek-in-callback")
+    for _ in range(3000 if tier == "quick" else 30000):
+        ln = 5 + rng.below(6)
+        h = [rng.choice(OPS + ["sub", "(next 0)", "(next_sub_inside 5 1)"]) for _ in range(ln)]
+        add("local", rng.below(3), ["peekcb"] + h + [TAIL], "peek-in-callback")
     nrand = 30000 if tier == "quick" else 300000
     for _ in range(nrand):
         ln = 6 + rng.below(8)
